@@ -174,6 +174,20 @@ func runProducers(c *Ctx, P string, orc outOracle) {
 	})
 	c.states += st.States
 	c.Note(fmt.Sprintf("explicit-state search: %d canonical buffer states, %d transitions, depth %d", st.States, st.Transitions, st.Depth))
+	ld := 2
+	if !c.Quick() {
+		ld = 3
+	}
+	stL := bufferBFSFrom(c, P+"/state-large", largeInits(largeSizes(c.Quick())), ld, maxStates, nil, func(s *buffer.Buffer, op *bufOp, s2 *buffer.Buffer, w *Worker) {
+		c2 := s2.VerifClone()
+		out := []byte(c2.RedactableString())
+		if d := orc(out); d != "" {
+			st := s.VerifState()
+			fail(w, "state", stateCase{State: st, Op: op.Name}, fmt.Sprintf("state {%d bytes ...%q ValidUntil:%d Mode:%d MarkerOpen:%v Cap:%d} --%s--> ...%q: %s", len(st.Buf), tailOf(st.Buf, 12), st.ValidUntil, st.Mode, st.MarkerOpen, st.Cap, op.Name, tailOf(out, 24), d))
+		}
+	})
+	c.states += stL.States
+	c.Note(fmt.Sprintf("explicit-state search from large buffers (sizes %v, escaped and pending): %d states, %d transitions, depth %d", largeSizes(c.Quick()), stL.States, stL.Transitions, stL.Depth))
 	// (c1) directives x universe
 	u := universe()
 	sp := quickDirectives()
